@@ -244,6 +244,11 @@ END;
 CREATE TRIGGER IF NOT EXISTS step_dependency_check_after_del AFTER DELETE ON dependency
 BEGIN
     UPDATE step SET _check_after = 1 WHERE node IN (OLD.source, OLD.sink);
+    -- When a file loses a consumer, the steps that produce it may be needed less than before.
+    -- Flag them here: the scheduler walks from a flagged step to its producers along the edges
+    -- that exist, and this one is gone by then.
+    UPDATE step SET _check_after = 1
+    WHERE node IN (SELECT source FROM dependency WHERE sink = OLD.source);
     UPDATE step SET _check_ready = 1 WHERE node = OLD.sink;
 END;
 
